@@ -87,7 +87,7 @@ def real_runnable(desc: dict) -> bool:
         return False  # we run as root: permission bits are not enforced on the real file system
     if fsd.get("fifos"):
         return False  # a real FIFO needs a concurrent writer
-    if any(a.startswith(CWD + "/") for a in desc.get("argv", [])) or any(k.startswith("/") for k in fsd["files"]):
+    if any((CWD + "/") in a for a in desc.get("argv", [])) or any(k.startswith("/") for k in fsd["files"]):
         return False  # absolute paths of the simulated tree do not exist for real
     if fsd.get("links"):
         return False  # listing comparison does not model links (the simulated semantics follow POSIX)
